@@ -52,6 +52,8 @@ type Case struct {
 	Patterns []string
 	Features map[string]string
 	Note     string
+	// AllowImports lists extra import paths emitted files may legitimately use (C18).
+	AllowImports []string
 }
 
 func (c *Case) Feature(k, v string) {
@@ -231,5 +233,62 @@ func (c *Case) Glue(i int, cv *Converter) (path, body string) {
 		fmt.Fprintf(&sb, "\t\t%q: %s,\n", k, cv.Callables[k])
 	}
 	sb.WriteString("\t})\n}\n")
+	return path, sb.String()
+}
+
+// Assert renders the API assertion file for a converter, written from the IR
+// (not from goverter's output): the emitted code must implement what was declared.
+// It returns "" when the format needs no compile-time assertion.
+func (c *Case) Assert(i int, cv *Converter) (path, body string) {
+	same := cv.Pkg.Path == cv.OutPkgPath
+	var from *Package
+	var sb strings.Builder
+	if same {
+		from = cv.Pkg
+		path = fmt.Sprintf("%s/zz_assert%d.go", cv.Pkg.Path, i)
+		sb.WriteString("package " + cv.Pkg.Name + "\n\n")
+	} else {
+		from = &Package{Path: fmt.Sprintf("assert%d", i), Name: fmt.Sprintf("assert%d", i)}
+		path = fmt.Sprintf("assert%d/assert.go", i)
+		sb.WriteString("package " + from.Name + "\n\n")
+	}
+	imports := map[*Package]bool{}
+	var decls []string
+	alias := func(q *Package) string { return q.Name }
+	genQ := ""
+	var extra []string
+	if !same {
+		extra = append(extra, fmt.Sprintf("gen %q", c.Root+"/"+cv.OutPkgPath))
+		genQ = "gen."
+	}
+	switch cv.Format {
+	case "struct":
+		if !same {
+			imports[cv.Pkg] = true
+		}
+		iface := cv.Name
+		if !same {
+			iface = cv.Pkg.Name + "." + cv.Name
+		}
+		decls = append(decls, fmt.Sprintf("var _ %s = &%s%s{}", iface, genQ, cv.ImplName))
+	case "function":
+		for _, m := range cv.Methods {
+			for _, pa := range m.Params {
+				pa.T.Imports(from, imports)
+			}
+			if m.Result != nil {
+				m.Result.Imports(from, imports)
+			}
+			var ps []string
+			for _, pa := range m.Params {
+				ps = append(ps, pa.T.Go(from, alias))
+			}
+			decls = append(decls, fmt.Sprintf("var _ func(%s)%s = %s%s", strings.Join(ps, ", "), c.results(m, from, alias), genQ, m.Name))
+		}
+	default:
+		return "", ""
+	}
+	writeImports(&sb, imports, c.Root, extra)
+	sb.WriteString(strings.Join(decls, "\n") + "\n")
 	return path, sb.String()
 }
